@@ -1,2 +1,3 @@
+import HopModel.Props.C05
 import HopModel.Props.C14
 import HopModel.Props.C20
